@@ -25,6 +25,8 @@ THEOREMS = [
     'AbacusVerif.Euler16.decode_injective',
     'AbacusVerif.Euler16.norm_cap_edge',
     'AbacusVerif.Euler16.coverage_partial',
+    'AbacusVerif.Euler16.coverage',
+    'AbacusVerif.Euler16.coverage_degrees',
 ]
 DRIVER = 'drv_c18'
 LEAN_MODULES = ['AbacusVerif.Props.C18']
@@ -369,6 +371,7 @@ def run(ctx):
             'value_deg': rad, 'at_direction': where, 'grid': 'spherical Fibonacci, %d points (%d on the hemisphere)' % (ngrid, nhemi),
             'grid_spacing_deg': spacing,
             'note': 'a lower bound of the true covering radius, short of it by at most about the grid spacing',
+            'proved_upper_bound_deg': 'Lean theorem coverage: 1-(v.m)^2 <= 0.00665, i.e. <= 4.678 degrees (coverage_degrees: <= 4.7)',
             'asserted_threshold_deg': COVER_FAIL_DEG}
         if not rad <= COVER_FAIL_DEG:
             # "about 4 degrees": a grid direction further than 4.5 degrees from every decoded major axis
